@@ -30,7 +30,25 @@ from .qeval import ONE, ZERO, Evaluator, Q, Undef, name_value
 
 SPEC = core.SPEC / "features"
 REFUSALS = ("ValueError", "NotImplementedError", "ModelError", "ModelSyntaxError")
-ALL_ACTS = ["S:FO", "S:PER", "S:TR", "S:LAG", "S:ZOE", "S:MM", "X:COVLIN", "X:COVCAT", "X:COVPW", "X:IOV", "X:BOXCOX",
+PRED = """$PROBLEM base
+$INPUT ID TIME DV WGT
+$DATA @DATA@ IGNORE=@
+$PRED
+CL = THETA(1)*EXP(ETA(1))
+V = THETA(2)
+KA = THETA(3)
+IF (WGT.GT.70) V = V*THETA(4)
+F1 = KA*EXP(-CL/V*TIME)
+Y = F1 + F1*EPS(1)
+$THETA (0,1)
+$THETA (0,2)
+$THETA (0,3)
+$THETA (0,1.5)
+$OMEGA 0.1
+$SIGMA 0.01
+$ESTIMATION METHOD=1 INTER
+"""
+ALL_ACTS = ["X:ADDIIV", "S:FO", "S:PER", "S:TR", "S:LAG", "S:ZOE", "S:MM", "X:COVLIN", "X:COVCAT", "X:COVPW", "X:IOV", "X:BOXCOX",
             "X:COMB", "X:IIVRUV", "X:POWER", "X:TV", "D:FIXTH", "D:ZEROOM", "P:MU", "P:DECL", "P:CLEAN", "P:SIMP", "P:GREEK",
             "P:RENAME", "P:SOLVE", "P:GENERIC", "P:NONMEM", "P:UNLOAD", "P:LOAD", "P:UNUSED", "P:JOINT", "P:SPLIT", "P:FIXED",
             "P:NONRANDOM", "O:OBS", "O:IPRED", "O:PRED", "O:ETAGRAD", "O:EPSGRAD", "O:EVAL"]
@@ -46,6 +64,12 @@ def start_model(name):
             _MODELS[name] = load_example_model("pheno")
         elif name == "linear":
             _MODELS[name] = load_example_model("pheno_linear")
+        elif name == "pred":
+            from pharmpy.modeling import read_model_from_string
+
+            m = read_model_from_string(PRED.replace("@DATA@", str(core.VERIF / "harness" / "corpus_c07_pred.csv")))
+            m.dataset  # load once in the parent
+            _MODELS[name] = m
         else:
             _MODELS[name] = read_model(core.REPO / "tests/testdata/nonmem/models/mox2.mod")
     return _MODELS[name]
@@ -136,12 +160,44 @@ def declared_renaming(m1, m2, given=None, positional=False):
     return ren
 
 
+def branch_overrides(model, limit=2):
+    """probe points on both sides of the conditions of conditional statements: for a Piecewise condition that
+    compares a data column with a number, the column at number + 1 and number - 1"""
+    import sympy
+    from pharmpy.model import Assignment
+
+    out, seen = [], set()
+    try:
+        cols = set(model.datainfo.names)
+    except Exception:  # noqa: BLE001
+        return out
+    for s in model.statements:
+        if not isinstance(s, Assignment):
+            continue
+        e = qeval._sp(s.expression)
+        for pw in e.atoms(sympy.Piecewise):
+            for _, cond in pw.args:
+                for rel in (cond.atoms(sympy.core.relational.Relational) if hasattr(cond, "atoms") else []):
+                    a, b = rel.lhs, rel.rhs
+                    if b.is_Symbol and a.is_number:
+                        a, b = b, a
+                    if a.is_Symbol and a.name in cols and b.is_number and (a.name, b) not in seen:
+                        seen.add((a.name, b))
+                        c = Fraction(str(sympy.nsimplify(b, rational=True)))
+                        out.append({a.name: c + 1})
+                        out.append({a.name: c - 1})
+    return out[: 2 * limit]
+
+
 def fp_event(m1, m2, salts, ren=None, amounts_from_after=False):
-    """before / after fingerprints at the same points (the point is carried through the renaming)"""
+    """before / after fingerprints at the same points (the point is carried through the renaming); besides the
+    generic points, points on both sides of every conditional statement of the before-model"""
     ren = ren or {}
     before, after = [], []
-    for k, salt in enumerate(salts):
+    points = [(salt, {}) for salt in salts] + [(salts[0], ov) for ov in branch_overrides(m1)]
+    for k, (salt, ov) in enumerate(points):
         env1 = probe(m1, salt)
+        env1.update({n: fr(x) for n, x in ov.items()})
         # m2 may have symbols of its own (none for a refactoring, but helper statements may introduce parameters)
         env2 = probe(m2, salt)
         for n, val in env1.items():
@@ -149,7 +205,7 @@ def fp_event(m1, m2, salts, ren=None, amounts_from_after=False):
         f1, f2 = flat(m1, {**env2, **env1}), flat(m2, env2)
         before += [[f"{k}|{n}", x] for n, x in f1.items()]
         after += [[f"{k}|{n}", x] for n, x in f2.items()]
-    return before, after
+    return before, after, len(points)
 
 
 # ----------------------------------------------------------------------------- non-preserving steps (history generators)
@@ -174,6 +230,8 @@ def apply_other(name, tok, m):
         return pm.set_zero_order_elimination(m)
     if tok == "S:MM":
         return pm.set_michaelis_menten_elimination(m)
+    if tok == "X:ADDIIV":
+        return pm.add_iiv(m, "KA", "exp")
     if tok in ("X:COVLIN", "X:COVCAT", "X:COVPW"):
         p, c, eff, nested = COV[name][tok]
         return pm.add_covariate_effect(m, p, c, eff, allow_nested=nested)
@@ -257,14 +315,14 @@ def do_preserving(name, tok, m1, cx):
     else:
         raise KeyError(tok)
     ren = declared_renaming(m1, m2, given, positional=(tok == "P:GREEK"))
-    before, after = fp_event(m1, m2, salts, ren)
+    before, after, npts = fp_event(m1, m2, salts, ren)
     req = []
     y = yname(m1)
-    for k in range(len(salts)):
+    for k in range(npts):
         req.append(f"{k}|{y}")
     req += [n for n, _ in before if n.split("|", 1)[1].split(":")[0] in ("flow", "lag", "bio", "dose", "dur", "rate", "col")]
     req += [n for n, _ in before if n.split("|", 1)[1].startswith("par:") and n.split("|", 1)[1][4:] in m1.parameters.names]
-    return m2, {"before": before, "after": after, "ren": [[f"{k}|{pre}{a}", f"{k}|{pre}{b}"] for a, b in ren.items() for k in range(len(salts)) for pre in ("", "par:")],
+    return m2, {"before": before, "after": after, "ren": [[f"{k}|{pre}{a}", f"{k}|{pre}{b}"] for a, b in ren.items() for k in range(npts) for pre in ("", "par:")],
                 "req": req, "pairs": pairs}
 
 
@@ -547,30 +605,53 @@ def observe(tok, m1, cx):
         # numeric evaluators on the first records of the dataset against direct float evaluation (float-only clause)
         df = m1.dataset
         inits = {k: float(v) for k, v in m1.parameters.inits.items()}
+        import pandas as pd
+
         pred = pm.evaluate_population_prediction(m1)
         ipred = pm.evaluate_individual_prediction(m1)
-        eg = pm.evaluate_eta_gradient(m1)
-        sg = pm.evaluate_epsilon_gradient(m1)
         fy = full_expression(m1, y)
-        for r in range(min(4, len(df))):
+        fy0 = fy.xreplace({sympy.Symbol(x): sympy.Integer(0) for x in eps})
+        # individual estimates handed over as a frame: one named column per eta, the order of the columns carries no
+        # meaning (here: reversed with respect to the model), different values per individual and eta
+        idc = m1.datainfo.id_column.name
+        ids = list(df[idc].unique())
+        perm = list(reversed(etas))
+        frame = pd.DataFrame({e: [0.05 * (etas.index(e) + 1) + 0.01 * k for k in range(len(ids))] for e in perm}, index=ids)[perm]
+        ip2 = pm.evaluate_individual_prediction(m1, etas=frame)
+        eg = pm.evaluate_eta_gradient(m1, etas=frame)
+        sg = pm.evaluate_epsilon_gradient(m1, etas=frame)
+
+        def cmp(fn, r, what, direct, got):
+            if not (math.isfinite(direct) and math.isfinite(got)):
+                return
+            aux["checked"] += 1
+            if not P.close(direct, got, 1e-8):
+                aux["failed"].append({"fn": fn, "row": r, **what, "direct": direct, "got": got})
+
+        rows = sorted({0, 1, len(df) // 2, len(df) - 1})
+        for r in rows:
             row = {c: float(df.iloc[r][c]) for c in df.columns if isinstance(df.iloc[r][c], (int, float)) or hasattr(df.iloc[r][c], "__float__")}
             envf = {**inits, **row, **{e: 0.0 for e in etas + eps}}
             direct = P.run_float(m1, envf).get(y)
-            aux["checked"] += 2
-            if not P.close(direct, float(pred.iloc[r]), 1e-8):
-                aux["failed"].append({"fn": "evaluate_population_prediction", "row": r, "direct": direct, "got": float(pred.iloc[r])})
-            if not P.close(direct, float(ipred.iloc[r]), 1e-8):
-                aux["failed"].append({"fn": "evaluate_individual_prediction", "row": r, "direct": direct, "got": float(ipred.iloc[r])})
-            for j, e in enumerate(etas):
-                d = qeval.float_eval(sympy.diff(fy.xreplace({sympy.Symbol(x): sympy.Integer(0) for x in eps}), sympy.Symbol(e)), envf)
-                aux["checked"] += 1
-                if not P.close(d, float(eg.iloc[r, j]), 1e-8):
-                    aux["failed"].append({"fn": "evaluate_eta_gradient", "row": r, "eta": e, "direct": d, "got": float(eg.iloc[r, j])})
-            for j, e in enumerate(eps):
-                d = qeval.float_eval(sympy.diff(fy, sympy.Symbol(e)), envf)
-                aux["checked"] += 1
-                if not P.close(d, float(sg.iloc[r, j]), 1e-8):
-                    aux["failed"].append({"fn": "evaluate_epsilon_gradient", "row": r, "eps": e, "direct": d, "got": float(sg.iloc[r, j])})
+            cmp("evaluate_population_prediction", r, {}, direct, float(pred.iloc[r]))
+            cmp("evaluate_individual_prediction", r, {}, direct, float(ipred.iloc[r]))
+            envf = {**envf, **{e: float(frame.loc[df.iloc[r][idc], e]) for e in etas}}
+            cmp("evaluate_individual_prediction(etas)", r, {}, P.run_float(m1, envf).get(y), float(ip2.iloc[r]))
+            # gradients are compared per LABEL (dF/d<eta>, dY/d<eps>) with the symbolic derivative of the model
+            for e in etas:
+                label = f"dF/d{e}"
+                if label not in eg.columns:
+                    aux["checked"] += 1
+                    aux["failed"].append({"fn": "evaluate_eta_gradient", "row": r, "eta": e, "missing_label": label})
+                    continue
+                cmp("evaluate_eta_gradient", r, {"eta": e}, qeval.float_eval(sympy.diff(fy0, sympy.Symbol(e)), envf), float(eg[label].iloc[r]))
+            for e in eps:
+                label = f"dY/d{e}"
+                if label not in sg.columns:
+                    aux["checked"] += 1
+                    aux["failed"].append({"fn": "evaluate_epsilon_gradient", "row": r, "eps": e, "missing_label": label})
+                    continue
+                cmp("evaluate_epsilon_gradient", r, {"eps": e}, qeval.float_eval(sympy.diff(fy, sympy.Symbol(e)), envf), float(sg[label].iloc[r]))
     return {"before": [], "after": [], "ren": [], "req": [], "pairs": pairs}, aux
 
 
@@ -666,19 +747,19 @@ INVS = ["TypeOK", "VersionCounts", "OneRenaming", "NoOdeNoStructure"]
 def tlc_explore(tier, seed, v):
     tmp = core.scratch("c07cfg")
     mh = 3 if tier == "quick" else 4
-    cfg = _acts_cfg(tmp, "explore.cfg", ["pheno", "mox2", "linear"], mh, ALL_ACTS, INVS + ["EmitCase"])
+    cfg = _acts_cfg(tmp, "explore.cfg", ["pheno", "mox2", "linear", "pred"], mh, ALL_ACTS, INVS + ["EmitCase"])
     if tier == "quick":
         res = core.run_tlc(SPEC / "Preserve.tla", cfg, workers=8, timeout=1500, coverage=False)
     else:
         # depth 4 exhaustively is 10^6 histories: the theorems are checked exhaustively without emission,
         # the histories of length 4 come from random walks of the same machine
-        cfg0 = _acts_cfg(tmp, "theorems.cfg", ["pheno", "mox2", "linear"], 4, ALL_ACTS, INVS)
+        cfg0 = _acts_cfg(tmp, "theorems.cfg", ["pheno", "mox2", "linear", "pred"], 4, ALL_ACTS, INVS)
         res0 = core.run_tlc(SPEC / "Preserve.tla", cfg0, workers=16, timeout=2400, coverage=False)
         core.require_ok(res0, "Preserve.tla depth 4")
         if res0.violated:
             raise core.MachineryError(f"Preserve.tla: {res0.violated} violated")
         v.add_coverage(states=res0.distinct, transitions=res0.generated)
-        cfg3 = _acts_cfg(tmp, "explore3.cfg", ["pheno", "mox2", "linear"], 3, ALL_ACTS, INVS + ["EmitCase"])
+        cfg3 = _acts_cfg(tmp, "explore3.cfg", ["pheno", "mox2", "linear", "pred"], 3, ALL_ACTS, INVS + ["EmitCase"])
         res = core.run_tlc(SPEC / "Preserve.tla", cfg3, workers=8, timeout=1500, coverage=False)
         sim = core.run_tlc(SPEC / "Preserve.tla", cfg, workers=4, timeout=1500, coverage=False, simulate="num=2500", depth=6, seed=seed)
         core.require_ok(sim, "Preserve.tla simulate")
@@ -745,8 +826,16 @@ def select(cases, tier, seed):
     rng = random.Random(seed)
     cases = sorted(cases, key=lambda c: json.dumps(c))
     rng.shuffle(cases)
-    first = [c for c in cases if len(c["hist"]) == 1 or (len(c["hist"]) == 2 and c["hist"][0][0] in "SXD")]
-    rest = [c for c in cases if not (len(c["hist"]) == 1 or (len(c["hist"]) == 2 and c["hist"][0][0] in "SXD"))]
+    def must(c):
+        h = c["hist"]
+        if len(h) == 1 or (len(h) == 2 and h[0][0] in "SXD"):
+            return True
+        # a refactoring, then a new eta assignment, then a refactoring again (mu_reference_model twice with an
+        # extension in between): one of the two is mu_reference_model
+        return len(h) == 3 and h[1] == "X:ADDIIV" and h[0][0] == "P" and h[2][0] == "P" and "P:MU" in (h[0], h[2])
+
+    first = [c for c in cases if must(c)]
+    rest = [c for c in cases if not must(c)]
     budget = {"quick": 130, "thorough": 9000}[tier]
     groups = {}
     for c in rest:
@@ -764,7 +853,8 @@ def select(cases, tier, seed):
 
 def _warm_up():
     for name, h in [("pheno", ["S:FO", "X:COVCAT", "P:CLEAN"]), ("pheno", ["X:IOV", "P:MU"]), ("pheno", ["P:SOLVE", "O:ETAGRAD"]),
-                    ("mox2", ["X:COMB", "P:GREEK"]), ("linear", ["P:GENERIC", "O:EVAL"]), ("pheno", ["P:JOINT", "P:SIMP"])]:
+                    ("mox2", ["X:COMB", "P:GREEK"]), ("linear", ["P:GENERIC", "O:EVAL"]), ("pheno", ["P:JOINT", "P:SIMP"]),
+                    ("pred", ["P:MU", "X:ADDIIV", "P:MU"]), ("pred", ["X:ADDIIV", "O:EVAL"])]:
         exec_history(({"model": name, "hist": h}, 1))
 
 
@@ -789,7 +879,7 @@ def main(tier: str, seed: int) -> int:
     core.use_repo()
     import pharmpy.modeling  # noqa: F401
 
-    for n in ("pheno", "mox2", "linear"):
+    for n in ("pheno", "mox2", "linear", "pred"):
         start_model(n)
     _warm_up()
     th.join()
@@ -891,16 +981,21 @@ def _float_agrees(case, seed, i, field):
             return False
         m2, ev = do_preserving(name, tok, m, cx)
         ren = {a.split("|", 1)[1]: b.split("|", 1)[1] for a, b in ev["ren"]}
-        env1 = P.env_to_float(probe(m, cx["salt"]))
-        env2 = dict(env1)
-        for a, b in ren.items():
-            if a in env1:
-                env2[b] = env1[a]
-        f1, f2 = P.run_float(m, env1), P.run_float(m2, env2)
-        for n, x in f1.items():
-            n2 = ren.get(n, n)
-            if n2 in f2 and not (math.isnan(x) or math.isnan(f2[n2])) and not P.close(x, f2[n2]):
-                return False
+        # the same points as the exact comparison: generic points and both sides of every conditional statement
+        points = [(cx["salt"], {}), (cx["salt"] + 1, {})] + [(cx["salt"], ov) for ov in branch_overrides(m)]
+        for salt, ov in points:
+            envq = probe(m, salt)
+            envq.update({n: fr(x) for n, x in ov.items()})
+            env1 = P.env_to_float(envq)
+            env2 = dict(env1)
+            for a, b in ren.items():
+                if a in env1:
+                    env2[b] = env1[a]
+            f1, f2 = P.run_float(m, env1), P.run_float(m2, env2)
+            for n, x in f1.items():
+                n2 = ren.get(n, n)
+                if n2 in f2 and not (math.isnan(x) or math.isnan(f2[n2])) and not P.close(x, f2[n2]):
+                    return False
         return True
     except Exception:  # noqa: BLE001
         return False
